@@ -157,10 +157,10 @@ stand_in(("C03", "C15", "C09"), "fixed_point", "URL(str(u)) has the same string 
          "yarl._url:encode_url",
          "URL strings composed of scheme x userinfo x host x port x path x query x fragment alternatives (see "
          "contracts/bounded_worker.py:fixed_point_cases) and the results of one modifier applied to each")
-stand_in(("C12", "C02", "C01"), "query_algebra", "with_query / extend_query / update_query / without_query_params == multi-dict algebra on pairs",
+stand_in(("C12", "C02", "C01", "C19"), "query_algebra", "with_query / extend_query / update_query / without_query_params == multi-dict algebra on pairs",
          "yarl._url:URL.update_query",
          "6 existing queries (duplicates, blanks, reserved characters; thorough: +40 single-pair queries) x 10 keys x 9 values x "
-         "{dict, pairs, MultiDict, dict of list, int, float, float with exponent, str subclass, kwargs, str} + None and rejected values", primary=False)
+         "{dict, pairs, MultiDict, dict of list, int, float, float with exponent, str subclass, kwargs, str} + None, rejected values and wrong arities", primary=False)
 stand_in(("C19", "C03", "C09", "C17"), "build", "URL.build results are usable objects and fixed points; only ValueError/TypeError",
          "yarl._url:URL.build",
          "scheme in {'', http, x} x 12 authority / host alternatives (incl. host-less ones) x 5 paths", primary=False)
